@@ -131,6 +131,22 @@ def rule_original_text(ctx):
         pvo = sgrep.params(of)
         oko = bool(pvo) and sgrep.has(of["body"], "read_to_string(__p).map(|__c| (__s, __c))", sgrep.lets(of["body"]), {"__p": pvo[0]})
         ctx.check(R, "open_file/contents-unmodified", oko, t[:200], site(LIB, of))
+    # FileLibrary::add_file hands the text it is given to the table as it is (no normalisation of line ends, BOM, ..)
+    FD = "program_structure/src/program_library/file_definition.rs"
+    af = find_fn(FD, "add_file", "FileLibrary")
+    if af is None:
+        ctx.missing(R, "FileLibrary::add_file")
+    else:
+        pva = sgrep.params(af)
+        adds = [m for m in method_calls(af["body"], "add") if len(m["args"]) == 2]
+        reb = [s_ for s_ in walk(af["body"]) if s_["k"] == "Local" and len(pva) >= 2 and pva[1] in [x["name"] for x in walk(s_["pat"]) if x["k"] == "PIdent"]]
+        from pathcond import _mutated_names
+
+        muts = set()
+        for st in af["body"]["stmts"]:
+            muts |= _mutated_names(st)
+        oka = len(adds) == 1 and len(pva) >= 2 and render(strip(adds[0]["args"][1])) == pva[1] and render(strip(adds[0]["args"][0])) == pva[0] and not reb and pva[1] not in muts and not (conditions_to(af["body"], adds[0]) or [])
+        ctx.check(R, "FileLibrary::add_file/stores-the-given-text", oka, "files.add(%s): the source parameter must reach the table unchanged (a rewritten copy shifts every offset the parser computed on the original)" % (render(adds[0]["args"]) if adds else "?"), site(FD, af))
     # parser_logic::parse_file feeds preprocess(src, file_id) of the same src
     pl = find_fn(PL, "parse_file")
     if pl is not None:
@@ -351,6 +367,56 @@ FILE_TABLE_OWNERS = {
 }
 
 
+def rule_declaration_lookup(ctx, R="C04.14"):
+    ctx.rule(R, "a declaration is looked up under the variable's full source identity (name and shadowing suffix), only the SSA version is dropped: the labels that point at `the declaration of x` then point at the declaration in scope, not at an earlier one of the same spelling")
+    DF = "program_structure/src/intermediate_representation/declarations.rs"
+    from astlib import result_expr
+
+    n_look = 0
+    for q_, f in fns_in_file(DF):
+        if "Declarations" not in q_ or not f.get("body") or "tests" in q_:
+            continue
+        nm = f["name"]
+        pv = sgrep.params(f)
+        keys = [m for m in walk(f["body"]) if m["k"] == "MethodCall" and m["method"] in ("get", "get_mut", "contains_key") and len(m["args"]) == 1 and render(strip(m["recv"])).replace(" ", "") in ("self.0", "self.declarations")]
+        if not keys:
+            continue
+        n_look += 1
+        ok = bool(pv) and len(keys) >= 1
+        det = []
+        for k_ in keys:
+            a = render(strip(k_["args"][0])).replace(" ", "")
+            lets_ = sgrep.lets(f["body"])
+            if a in lets_:
+                a = render(strip(lets_[a])).replace(" ", "")
+            det.append(a)
+            ok = ok and a in (pv[0], "%s.without_version()" % pv[0], "%s.clone().without_version()" % pv[0])
+        ctx.check(R, "Declarations::%s/key-keeps-the-suffix" % nm, ok, "lookup key(s): %s" % det, site(DF, f))
+    ctx.floor(R, "declaration lookups", n_look, 1)
+
+
+def rule_labels_untouched(ctx, R="C04.13"):
+    ctx.rule(R, "after a report has been converted for display its labels are not rewritten: outside report.rs no code assigns to the range, start, end or file id of a label or location")
+    n = 0
+    for f in sorted(facts.ast()):
+        if not f.startswith(("program_structure/src/utils/", "cli/src/", "program_analysis/src/analysis_runner")):
+            continue
+        for q, fn in fns_in_file(f):
+            if not fn.get("body") or "tests" in q:
+                continue
+            n += 1
+            hits = []
+            for x in walk(fn["body"]):
+                if x["k"] in ("Assign", "AssignOp") or (x["k"] == "Binary" and x.get("op", "").endswith("=") and x["op"] not in ("==", "!=", "<=", ">=")):
+                    lhs = render(x["l"]).replace(" ", "")
+                    if re.search(r"\.(range|file_id)(\.|$)|\brange\.(start|end)$|\.labels\b", lhs):
+                        hits.append(lhs[:50])
+                if x["k"] == "MethodCall" and x["method"] in ("iter_mut", "retain", "truncate", "clear", "pop", "remove", "sort", "sort_by_key", "dedup") and re.search(r"\blabels\b", render(x["recv"])):
+                    hits.append(render(x)[:50])
+            ctx.check(R, "%s::%s/labels-as-converted" % (f.rsplit("/", 1)[-1][:-3], fn["name"]), not hits, "label data rewritten: %s" % hits[:3], site(f, fn))
+    ctx.floor(R, "writer / conversion functions", n, 25)
+
+
 def rule_file_table(ctx):
     R = "C04.11"
     ctx.rule(R, "there is one file table: only FileLibrary creates or extends a codespan SimpleFiles, only the parser adds files to the library, and the terminal writer resolves labels against the storage of the library it was given (so a label's file id means the same file for every consumer)")
@@ -399,6 +465,8 @@ def rule_file_table(ctx):
 def run(ctx):
     rule_foreign_locations(ctx)
     rule_file_table(ctx)
+    rule_labels_untouched(ctx)
+    rule_declaration_lookup(ctx)
     ctx.rule("C04.10", "Report::add_primary / add_secondary attach exactly the byte range and file id they are given (no widening, shifting or re-anchoring)")
     c03.rule_label_passthrough(ctx, "C04.10")
     ctx.include("C04.1", "the comment stripper is equivalent to the reference lexer for all strings - in particular every byte of the input corresponds to exactly one byte of the output (shared with C05.1)", lambda c: c05.run(c), only=["preprocess/"])
